@@ -40,9 +40,18 @@ type variant struct {
 	Lp  json.RawMessage   `json:"lp"`
 	Dlp []json.RawMessage `json:"dlp"`
 	Cdf json.RawMessage   `json:"cdf"`
+	Dev []*deviation      `json:"dev"`
 	lp  *exprlib.Term
 	dlp []*exprlib.Term
 	cdf *exprlib.Term
+}
+
+// deviation is a KnownDeviation_* term of the specification: what the code is
+// known to compute instead of the contract (DESIGN.md 6.2).
+type deviation struct {
+	Name string          `json:"name"`
+	Lp   json.RawMessage `json:"lp"`
+	lp   *exprlib.Term
 }
 
 type family struct {
@@ -110,6 +119,11 @@ func parseFamily(line []byte) error {
 				return fmt.Errorf("%s dlp: %v", f.Fam, err)
 			}
 			v.dlp = append(v.dlp, t)
+		}
+		for _, dv := range v.Dev {
+			if dv.lp, err = exprlib.Parse(dv.Lp); err != nil {
+				return fmt.Errorf("%s deviation: %v", f.Fam, err)
+			}
 		}
 		if f.HasCdf {
 			if v.cdf, err = exprlib.Parse(v.Cdf); err != nil {
@@ -598,6 +612,15 @@ func replayEval(f *family, c *tcase) {
 					s["what"] = "neginf_inside_support"
 				}
 				d["tol"] = tol
+				// does the observation equal a known deviation of the specification?
+				for _, dv := range vr.Dev {
+					w2, e2 := evalTerm(dv.lp, vars)
+					if w2.Finite() && !e2.Overflow && closeTo(res.v, w2.V, 1e-10*(1+math.Abs(w2.V))+32*w2.E) {
+						s["what"] = "value_known_deviation"
+						s["deviation"] = dv.Name
+						d["deviation_value"] = jf(w2.V)
+					}
+				}
 				mismatch(s, d)
 			}
 			counts["values_compared"]++
